@@ -111,6 +111,27 @@ mod verif_c20 {
     kani::cover!(!all_hex && n == 4, "reached");
   }
 
+
+  /// Malformed prefixes with concrete structure and symbolic digits: a doubled prefix, an upper-case X, a bare
+  /// prefix, a missing zero.  (Concrete structure keeps prefix-handling loops concrete whatever the implementation.)
+  #[kani::proof]
+  #[kani::unwind(10)]
+  fn c20_addr_malformed_prefixes() {
+    let d1: u8 = kani::any(); let d2: u8 = kani::any();
+    kani::assume(is_hex(d1) && is_hex(d2));
+    let a = [b'0', b'x', b'0', b'x', d1, d2];
+    vassert!(parse_address(unsafe { core::str::from_utf8_unchecked(&a) }) == None, "C20.addr.doubled_prefix_rejected");
+    let b = [b'0', b'X', d1, d2];
+    vassert!(parse_address(unsafe { core::str::from_utf8_unchecked(&b) }) == None, "C20.addr.uppercase_x_rejected");
+    let c = [b'0', b'x'];
+    vassert!(parse_address(unsafe { core::str::from_utf8_unchecked(&c) }) == None, "C20.addr.bare_prefix_rejected");
+    let d = [b'x', d1, d2];
+    vassert!(parse_address(unsafe { core::str::from_utf8_unchecked(&d) }) == None, "C20.addr.missing_zero_rejected");
+    let e = [b'0', b'x', d1, d2, b'0', b'x'];
+    vassert!(parse_address(unsafe { core::str::from_utf8_unchecked(&e) }) == None, "C20.addr.trailing_prefix_rejected");
+    kani::cover!(true, "reached");
+  }
+
   /// Arbitrary printable-ASCII tokens up to 5 bytes: total (no panic), and a decimal reading only for digit strings.
   #[kani::proof]
   #[kani::unwind(10)]
